@@ -316,10 +316,73 @@ func intRoot(v ssa.Value) ssa.Value {
 			v = x.X
 		case *ssa.ChangeType:
 			v = x.X
+		case *ssa.UnOp:
+			// loads of a local variable denote the variable (facts are keyed
+			// by the variable; stores between check and use are not modelled)
+			if x.Op == token.MUL {
+				if al, ok := x.X.(*ssa.Alloc); ok {
+					return al
+				}
+			}
+			return v
 		default:
 			return v
 		}
 	}
+}
+
+// canon names a value by the memory location it was loaded from, so that two
+// loads of the same variable / field of the same object share their facts.
+func canon(v ssa.Value) string {
+	if v == nil {
+		return ""
+	}
+	switch x := v.(type) {
+	case *ssa.Convert:
+		return canon(x.X)
+	case *ssa.ChangeType:
+		return canon(x.X)
+	case *ssa.UnOp:
+		if x.Op == token.MUL {
+			return "*" + canonAddr(x.X)
+		}
+	case *ssa.Slice:
+		if x.Low == nil && x.High == nil && x.Max == nil {
+			return canon(x.X)
+		}
+		lo, hi := "", ""
+		if x.Low != nil {
+			lo = canon(x.Low)
+		}
+		if x.High != nil {
+			hi = canon(x.High)
+		}
+		return canon(x.X) + "[" + lo + ":" + hi + "]"
+	case *ssa.Const:
+		if c, ok := constInt(x); ok {
+			return itoa(int(c))
+		}
+	case *ssa.Field:
+		return canon(x.X) + ".f" + itoa(x.Field)
+	}
+	return v.Name()
+}
+
+func canonAddr(v ssa.Value) string {
+	switch x := v.(type) {
+	case *ssa.FieldAddr:
+		return canonAddr(x.X) + ".f" + itoa(x.Field)
+	case *ssa.IndexAddr:
+		if c, ok := constInt(x.Index); ok {
+			return canonAddr(x.X) + "[" + itoa(int(c)) + "]"
+		}
+		return canonAddr(x.X) + "[" + canon(x.Index) + "]"
+	case *ssa.UnOp:
+		if x.Op == token.MUL {
+			return "(*" + canonAddr(x.X) + ")"
+		}
+	}
+	return v.Name()
 }
 
 // boundFacts emits facts about integer SSA values established on an edge:
@@ -330,8 +393,8 @@ func intRoot(v ssa.Value) ssa.Value {
 //	v:lenge:<y>:<c> len(y) >= c (constant c)
 func boundFacts(m *Matcher, p Pred, holds bool) []Atom {
 	var out []Atom
-	name := func(v ssa.Value) string { return intRoot(v).Name() }
-	isConst := func(v ssa.Value) (int64, bool) { return constInt(intRoot(v)) }
+	name := func(v ssa.Value) string { return canon(v) }
+	isConst := func(v ssa.Value) (int64, bool) { return constInt(intRootNoVar(v)) }
 	// normalise to a strict/non-strict "a < b" / "a <= b" that is TRUE on this edge
 	var a, b ssa.Value
 	strict := false
@@ -350,11 +413,29 @@ func boundFacts(m *Matcher, p Pred, holds bool) []Atom {
 		}
 	case "eq":
 		if !holds {
-			return nil
+			// len(y) != 0  =>  len(y) >= 1
+			for _, pr := range [][2]ssa.Value{{p.X, p.Y}, {p.Y, p.X}} {
+				if l := lenOf(m, intRootNoVar(pr[0])); l != nil && isConstInt(intRootNoVar(pr[1]), 0) {
+					out = append(out, "v:lenge:"+canon(l)+":0", "v:lenge:"+canon(l)+":1")
+				}
+			}
+			return out
 		}
 		// x == y: both directions non-strict
 		out = append(out, boundFactsLE(m, p.X, p.Y, false, name, isConst)...)
 		out = append(out, boundFactsLE(m, p.Y, p.X, false, name, isConst)...)
+		// len(y) == 2*n  =>  n <= len(y)
+		for _, pr := range [][2]ssa.Value{{p.X, p.Y}, {p.Y, p.X}} {
+			if l := lenOf(m, intRootNoVar(pr[0])); l != nil {
+				if bo, ok := intRootNoVar(pr[1]).(*ssa.BinOp); ok && bo.Op == token.MUL {
+					for _, q := range [][2]ssa.Value{{bo.X, bo.Y}, {bo.Y, bo.X}} {
+						if c, ok := constInt(intRootNoVar(q[1])); ok && c >= 1 {
+							out = append(out, "v:le:"+canon(q[0])+":"+canon(l))
+						}
+					}
+				}
+			}
+		}
 		return out
 	default:
 		return nil
@@ -380,9 +461,9 @@ func boundFactsLE(m *Matcher, a, b ssa.Value, strict bool, name func(ssa.Value) 
 		if _, aConst := isConst(a); !aConst {
 			out = append(out, "v:ub:"+name(a))
 			if strict {
-				out = append(out, "v:lt:"+name(a)+":"+lb.Name())
+				out = append(out, "v:lt:"+name(a)+":"+canon(lb))
 			}
-			out = append(out, "v:le:"+name(a)+":"+lb.Name())
+			out = append(out, "v:le:"+name(a)+":"+canon(lb))
 		} else if ca, _ := isConst(a); true {
 			// c (<|<=) len(y)  => len(y) >= c (+1 if strict)
 			c := ca
@@ -390,8 +471,13 @@ func boundFactsLE(m *Matcher, a, b ssa.Value, strict bool, name func(ssa.Value) 
 				c++
 			}
 			for k := int64(0); k <= c && k <= 64; k++ {
-				out = append(out, "v:lenge:"+lb.Name()+":"+itoa(int(k)))
+				out = append(out, "v:lenge:"+canon(lb)+":"+itoa(int(k)))
 			}
+		}
+	}
+	if bo, ok := intRootNoVar(b).(*ssa.BinOp); ok && bo.Op == token.SUB {
+		if l := lenOf(m, intRootNoVar(bo.X)); l != nil {
+			out = append(out, "v:sumle:"+name(a)+":"+canon(bo.Y)+":"+canon(l))
 		}
 	}
 	if ca, ok := isConst(a); ok {
@@ -592,4 +678,644 @@ func (e *E3) cmdStarted(r *Result, prefix string) {
 			r.table(p, rule, fmt.Sprintf("failure return #%d of %s", i, p.FuncName(fn)), p.instrPos(ret), st.Has("cmd-cleared"), "command field cleared before returning the Start error")
 		}
 	}
+}
+
+// ---- G2: allocations sized by the peer ----------------------------------------------
+
+// lenDerived: v is computed only from len()/cap() of existing data and constants.
+func lenDerived(m *Matcher, v ssa.Value, depth int) bool {
+	if depth > 8 {
+		return false
+	}
+	v = intRoot(v)
+	if _, ok := v.(*ssa.Const); ok {
+		return true
+	}
+	if lenOf(m, v) != nil {
+		return true
+	}
+	if c, ok := v.(*ssa.Call); ok {
+		if b, ok := c.Call.Value.(*ssa.Builtin); ok && (b.Name() == "cap" || b.Name() == "min" || b.Name() == "max") {
+			for _, a := range c.Call.Args {
+				if b.Name() == "cap" {
+					return true
+				}
+				if !lenDerived(m, a, depth+1) {
+					return false
+				}
+			}
+			return true
+		}
+		switch m.P.calleeOf(c.Common()).Name {
+		case "hash.Hash.Size", "hash.Hash.BlockSize", "crypto/cipher.Block.BlockSize", "crypto/cipher.AEAD.NonceSize", "crypto/cipher.AEAD.Overhead", "reflect.Value.Len", "bytes.Buffer.Len":
+			return true
+		}
+	}
+	if bo, ok := v.(*ssa.BinOp); ok {
+		return lenDerived(m, bo.X, depth+1) && lenDerived(m, bo.Y, depth+1)
+	}
+	if ph, ok := v.(*ssa.Phi); ok {
+		for _, e := range ph.Edges {
+			if !lenDerived(m, e, depth+1) {
+				return false
+			}
+		}
+		return true
+	}
+	return false
+}
+
+// boundedResult: v is result idx of an in-module function all of whose success
+// returns return a value with an upper-bound fact.
+func (e *E3) boundedResult(f *Flow, m *Matcher, v ssa.Value) (bool, string) {
+	call, idx := m.CallResult(intRoot(v))
+	if call == nil {
+		return false, ""
+	}
+	g := e.p.body(call.Common().StaticCallee())
+	if g == nil || !f.Region[g] {
+		return false, ""
+	}
+	errIdx := g.Signature.Results().Len() - 1
+	n := 0
+	for _, sr := range f.successReturns(g, errIdx) {
+		rv := intRoot(returnValue(sr.Ret, idx))
+		if _, isConst := rv.(*ssa.Const); isConst {
+			continue
+		}
+		n++
+		if !sr.State.Has("v:ub:" + canon(returnValue(sr.Ret, idx))) {
+			return false, ""
+		}
+	}
+	return n > 0, e.p.FuncName(g)
+}
+
+func (e *E3) g2(r *Result, prefix string, f *Flow) {
+	p := e.p
+	rule := prefix + ".alloc-bounded"
+	r.rule(rule, "G2: every allocation whose size a peer-controlled value reaches (make, reflect.MakeSlice, Value.Grow/SetLen, Repeat) is sized by len()/cap() of data already received, or is dominated by an upper-bound comparison of that value (directly or inside the function that produced it)")
+	check := func(fn *ssa.Function, in ssa.Instruction, size ssa.Value, what string) {
+		if size == nil {
+			return
+		}
+		if _, isConst := intRoot(size).(*ssa.Const); isConst {
+			return
+		}
+		m := f.matcherFor(fn)
+		construct := fmt.Sprintf("%s in %s", what, p.FuncName(fn))
+		k := 1
+		for r.hasConstruct(rule, construct) {
+			k++
+			construct = fmt.Sprintf("%s #%d in %s", what, k, p.FuncName(fn))
+		}
+		if !e.t.Is(size) {
+			r.table(p, rule, construct, p.instrPos(in), true, "size is not peer-controlled")
+			return
+		}
+		if lenDerived(m, size, 0) {
+			r.table(p, rule, construct, p.instrPos(in), true, "size is len()/cap()/block size of existing data (proportional to what was received)")
+			return
+		}
+		st := f.StateAt(in)
+		root := intRoot(size)
+		if st.Has("v:ub:" + canon(size)) {
+			r.table(p, rule, construct, p.instrPos(in), true, "dominated by an upper-bound comparison of "+root.Name())
+			return
+		}
+		if narrowBounded(m, size, 0) {
+			r.table(p, rule, construct, p.instrPos(in), true, "size is computed from values of at most 16 bits, constants and lengths of existing data (at most 64 KiB)")
+			return
+		}
+		if fld := fieldOfLoad(intRootNoVar(size)); fld != "" && fieldOnlyConstStores(p, fld) {
+			r.table(p, rule, construct, p.instrPos(in), true, "size is field "+fld+", which is only ever assigned constants (registered constructors) or restored from the state store")
+			return
+		}
+		if ok, g := e.boundedResult(f, m, size); ok {
+			r.table(p, rule, construct, p.instrPos(in), true, "size is the result of "+g+", which returns it only after an upper-bound comparison")
+			return
+		}
+		r.table(p, rule, construct, p.instrPos(in), false, "peer-controlled size "+root.Name()+"="+root.String()+" reaches the allocation without a dominating upper bound")
+	}
+	for _, fn := range e.order {
+		if !f.Region[fn] {
+			continue
+		}
+		for _, b := range fn.Blocks {
+			for _, in := range b.Instrs {
+				switch x := in.(type) {
+				case *ssa.MakeSlice:
+					check(fn, in, x.Len, "make")
+					if x.Cap != x.Len {
+						check(fn, in, x.Cap, "make(cap)")
+					}
+				case *ssa.MakeMap:
+					check(fn, in, x.Reserve, "make(map)")
+				case ssa.CallInstruction:
+					args := allArgs(x)
+					switch p.calleeOf(x.Common()).Name {
+					case "reflect.MakeSlice":
+						check(fn, in, args[1], "reflect.MakeSlice")
+						check(fn, in, args[2], "reflect.MakeSlice(cap)")
+					case "reflect.Value.Grow", "reflect.Value.SetLen", "reflect.Value.SetCap":
+						check(fn, in, args[1], p.calleeOf(x.Common()).Name)
+					case "bytes.Repeat", "strings.Repeat", "slices.Repeat":
+						check(fn, in, args[1], p.calleeOf(x.Common()).Name)
+					case "bytes.Buffer.Grow", "strings.Builder.Grow", "slices.Grow":
+						check(fn, in, args[1], p.calleeOf(x.Common()).Name)
+					}
+				}
+			}
+		}
+	}
+}
+
+func intRootNoVar(v ssa.Value) ssa.Value {
+	for {
+		switch x := v.(type) {
+		case *ssa.Convert:
+			v = x.X
+		case *ssa.ChangeType:
+			v = x.X
+		default:
+			return v
+		}
+	}
+}
+
+// narrowBounded: v is built from values whose type is at most 16 bits wide,
+// constants and len()-derived values with + and -.
+func narrowBounded(m *Matcher, v ssa.Value, depth int) bool {
+	if depth > 8 {
+		return false
+	}
+	switch v.Type().Underlying().String() {
+	case "uint8", "uint16", "int8", "int16", "byte":
+		return true
+	}
+	switch x := v.(type) {
+	case *ssa.Const:
+		return true
+	case *ssa.Convert:
+		return narrowBounded(m, x.X, depth+1)
+	case *ssa.BinOp:
+		if x.Op == token.ADD || x.Op == token.SUB {
+			return narrowBounded(m, x.X, depth+1) && narrowBounded(m, x.Y, depth+1)
+		}
+	case *ssa.Phi:
+		for _, e := range x.Edges {
+			if !narrowBounded(m, e, depth+1) {
+				return false
+			}
+		}
+		return true
+	}
+	return lenDerived(m, v, depth)
+}
+
+// fieldOnlyConstStores: every store to the named struct field in the module is
+// a constant, or happens in an UnmarshalCBOR method (restore from the state
+// store); composite literals count as stores.
+func fieldOnlyConstStores(p *Prog, field string) bool {
+	n := 0
+	for _, fn := range p.Funcs {
+		if isHarnessPkg(funcPkgPath(fn)) {
+			continue
+		}
+		for _, b := range fn.Blocks {
+			for _, in := range b.Instrs {
+				st, ok := in.(*ssa.Store)
+				if !ok {
+					continue
+				}
+				fa, ok := st.Addr.(*ssa.FieldAddr)
+				if !ok || fieldName(fa.X.Type(), fa.Field) != field {
+					continue
+				}
+				n++
+				if _, isConst := st.Val.(*ssa.Const); isConst {
+					continue
+				}
+				if fn.Name() == "UnmarshalCBOR" || fn.Name() == "UnmarshalBinary" {
+					continue
+				}
+				return false
+			}
+		}
+	}
+	return n > 0
+}
+
+// ---- G3: index and slice bounds ------------------------------------------------------
+
+type boundsSite struct {
+	fn   *ssa.Function
+	in   ssa.Instruction
+	kind string
+}
+
+// boundsInstrs indexes the index/slice instructions of the region by file:line.
+func (e *E3) boundsInstrs() map[string][]boundsSite {
+	out := map[string][]boundsSite{}
+	for _, fn := range e.order {
+		for _, b := range fn.Blocks {
+			for _, in := range b.Instrs {
+				kind := ""
+				switch x := in.(type) {
+				case *ssa.IndexAddr:
+					kind = "IsInBounds"
+				case *ssa.Index:
+					kind = "IsInBounds"
+				case *ssa.Lookup:
+					if _, isMap := x.X.Type().Underlying().(interface{ Key() }); !isMap {
+						kind = "IsInBounds"
+					}
+					if strings.HasPrefix(x.X.Type().Underlying().String(), "map[") {
+						kind = ""
+					}
+				case *ssa.Slice:
+					kind = "IsSliceInBounds"
+				case *ssa.SliceToArrayPointer:
+					kind = "IsSliceInBounds"
+				}
+				if kind == "" || !in.Pos().IsValid() {
+					continue
+				}
+				ps := e.p.Fset.Position(in.Pos())
+				key := fmt.Sprintf("%s:%d", filepath.Clean(ps.Filename), ps.Line)
+				out[key] = append(out[key], boundsSite{fn, in, kind})
+			}
+		}
+	}
+	return out
+}
+
+func (e *E3) g3(r *Result, prefix string, f *Flow, repo string) {
+	p := e.p
+	rule := prefix + ".bounds"
+	r.rule(rule, "G3: every index/slice expression in wire-reachable code whose bounds check the Go compiler's prove pass could not eliminate either involves no peer-controlled value, or is dominated by comparisons establishing 0 <= i < len / lo <= hi <= len for the very values used, or has a reviewed reason; everything the compiler proved needs no obligation")
+	sites, err := unprovenBounds(repo, p.Config)
+	if err != nil {
+		r.fail("G3: %v", err)
+		return
+	}
+	r.note("compiler prove pass left %d bounds checks unproven in the three modules (%s)", len(sites), p.Config.Name)
+	idx := e.boundsInstrs()
+	seen := map[ssa.Instruction]bool{}
+	inRegion := 0
+	for _, s := range sites {
+		key := fmt.Sprintf("%s:%d", s.file, s.line)
+		cands := idx[key]
+		var matched []boundsSite
+		for _, c := range cands {
+			if c.kind == s.kind {
+				matched = append(matched, c)
+			}
+		}
+		if len(matched) == 0 {
+			continue // not in a wire-reachable function (or no SSA counterpart on that line)
+		}
+		for _, c := range matched {
+			if seen[c.in] {
+				continue
+			}
+			seen[c.in] = true
+			inRegion++
+			e.boundsObligation(r, rule, f, c)
+		}
+	}
+	r.note("%d unproven bounds checks lie in wire-reachable functions", inRegion)
+}
+
+func (e *E3) boundsObligation(r *Result, rule string, f *Flow, c boundsSite) {
+	p := e.p
+	fn := c.fn
+	if !f.Region[fn] {
+		return
+	}
+	m := f.matcherFor(fn)
+	st := f.StateAt(c.in)
+	k := 1
+	construct := fmt.Sprintf("%s in %s", strings.TrimPrefix(c.kind, "Is"), p.FuncName(fn))
+	for r.hasConstruct(rule, fmt.Sprintf("%s #%d", construct, k)) {
+		k++
+	}
+	construct = fmt.Sprintf("%s #%d", construct, k)
+	pos := p.instrPos(c.in)
+	has := func(a string) bool { return st.Has(a) }
+	nm := func(v ssa.Value) string { return canon(v) }
+	lenTainted := func(x ssa.Value) bool { return e.t.Is(x) || e.t.memTainted(x) }
+	nonNeg := func(v ssa.Value) bool {
+		v0 := intRootNoVar(v)
+		if cst, ok := constInt(v0); ok {
+			return cst >= 0
+		}
+		switch v0.Type().Underlying().String() {
+		case "uint", "uint8", "uint16", "uint32", "uint64", "uintptr", "byte":
+			return true
+		}
+		if lenDerivedNonNeg(m, v0) {
+			return true
+		}
+		if arithNonNeg(m, v0, 0) {
+			return true
+		}
+		return has("v:lb0:" + nm(v))
+	}
+	// reviewed: unproven, peer-influenced bounds whose safety follows from an
+	// invariant this matcher does not model (one reason per function); used
+	// only when the matcher itself cannot discharge the site, and never for
+	// constant indices (those need an explicit length guard)
+	emit := func(ok bool, detail string, constIndex bool) {
+		if !ok && !constIndex {
+			if reason, listed := reviewedBounds[p.FuncName(fn)]; listed {
+				r.table(p, rule, construct, pos, true, "reviewed: "+reason)
+				return
+			}
+		}
+		r.table(p, rule, construct, pos, ok, detail)
+	}
+	switch x := c.in.(type) {
+	case *ssa.IndexAddr, *ssa.Index, *ssa.Lookup:
+		var base, i ssa.Value
+		switch y := x.(type) {
+		case *ssa.IndexAddr:
+			base, i = y.X, y.Index
+		case *ssa.Index:
+			base, i = y.X, y.Index
+		case *ssa.Lookup:
+			base, i = y.X, y.Index
+		}
+		if !e.t.Is(i) && !lenTainted(base) {
+			r.table(p, rule, construct, pos, true, "neither the index nor the indexed value's length is peer-controlled")
+			return
+		}
+		if cst, ok := constInt(intRootNoVar(i)); ok {
+			ok2 := has(fmt.Sprintf("v:lenge:%s:%d", canon(base), cst+1)) || arrayLenAtLeast(base, cst+1) || knownLen(m, base) >= cst+1 || e.paramLenAtLeast(f, fn, base, cst+1)
+			emit(ok2, fmt.Sprintf("constant index %d into a value of peer-controlled length: needs len >= %d established", cst, cst+1), true)
+			return
+		}
+		ok2 := has("v:lt:"+nm(i)+":"+canon(base)) && nonNeg(i)
+		emit(ok2, fmt.Sprintf("index %s into %s: needs 0 <= i < len on all paths (have lt=%v nonneg=%v)", nm(i), canon(base), has("v:lt:"+nm(i)+":"+canon(base)), nonNeg(i)), false)
+	case *ssa.Slice:
+		base := x.X
+		if al := loadOf(base); al != nil {
+			_ = al
+		}
+		lo, hi := x.Low, x.High
+		if (lo == nil || !e.t.Is(lo)) && (hi == nil || !e.t.Is(hi)) && !lenTainted(base) {
+			r.table(p, rule, construct, pos, true, "neither the bounds nor the sliced value's length is peer-controlled")
+			return
+		}
+		bname := canon(base)
+		kl := knownLen(m, base)
+		okHi := true
+		if hi != nil {
+			if cst, ok := constInt(intRootNoVar(hi)); ok {
+				okHi = has(fmt.Sprintf("v:lenge:%s:%d", bname, cst)) || arrayLenAtLeast(base, cst) || kl >= cst
+			} else {
+				okHi = has("v:le:"+nm(hi)+":"+bname) || has("v:lt:"+nm(hi)+":"+bname) || isLenOf(m, hi, base) || readCount(m, hi, base)
+				if bo, ok := intRootNoVar(hi).(*ssa.BinOp); ok && bo.Op == token.ADD && lo != nil {
+					// x[b : b+a] with a <= len(x)-b
+					for _, q := range [][2]ssa.Value{{bo.X, bo.Y}, {bo.Y, bo.X}} {
+						if canon(q[0]) == canon(lo) && has("v:sumle:"+canon(q[1])+":"+canon(lo)+":"+bname) {
+							okHi = true
+						}
+					}
+				}
+			}
+		}
+		okLo := true
+		if lo != nil {
+			if cst, ok := constInt(intRootNoVar(lo)); ok {
+				if hi == nil {
+					okLo = cst == 0 || has(fmt.Sprintf("v:lenge:%s:%d", bname, cst)) || arrayLenAtLeast(base, cst) || kl >= cst
+				}
+			} else {
+				okLo = nonNeg(lo)
+				if hi == nil {
+					okLo = okLo && (has("v:le:"+nm(lo)+":"+bname) || has("v:lt:"+nm(lo)+":"+bname))
+				} else if _, hc := constInt(intRootNoVar(hi)); !hc {
+					okLo = okLo && (nm(lo) == nm(hi) || has("v:le-val:"+nm(lo)+":"+nm(hi)) || isSumOf(hi, lo))
+				}
+			}
+		}
+		emit(okLo && okHi, fmt.Sprintf("slice %s[%s:%s]: low ok=%v high ok=%v", bname, valName(lo), valName(hi), okLo, okHi), false)
+	default:
+		r.table(p, rule, construct, pos, false, "unrecognised bounds-checked construct: undecided")
+	}
+}
+
+func valName(v ssa.Value) string {
+	if v == nil {
+		return ""
+	}
+	if c, ok := constInt(intRootNoVar(v)); ok {
+		return itoa(int(c))
+	}
+	return intRoot(v).Name()
+}
+
+func arrayLenAtLeast(base ssa.Value, n int64) bool {
+	t := base.Type().Underlying()
+	if pt, ok := t.(interface{ Elem() interface{} }); ok {
+		_ = pt
+	}
+	s := t.String()
+	s = strings.TrimPrefix(s, "*")
+	if strings.HasPrefix(s, "[") {
+		end := strings.Index(s, "]")
+		if end > 1 {
+			if l, err := strconv.Atoi(s[1:end]); err == nil {
+				return int64(l) >= n
+			}
+		}
+	}
+	return false
+}
+
+func isLenOf(m *Matcher, v, base ssa.Value) bool {
+	l := lenOf(m, intRootNoVar(v))
+	return l != nil && l == base
+}
+
+// isSumOf: hi == lo + something non-negative of narrow/len type (lo <= hi).
+func isSumOf(hi, lo ssa.Value) bool {
+	bo, ok := intRootNoVar(hi).(*ssa.BinOp)
+	if !ok || bo.Op != token.ADD {
+		return false
+	}
+	return canon(bo.X) == canon(lo) || canon(bo.Y) == canon(lo)
+}
+
+func lenDerivedNonNeg(m *Matcher, v ssa.Value) bool {
+	if lenOf(m, v) != nil {
+		return true
+	}
+	if c, ok := v.(*ssa.Call); ok {
+		switch m.P.calleeOf(c.Common()).Name {
+		case "builtin.cap", "builtin.min", "hash.Hash.Size", "crypto/cipher.Block.BlockSize", "slices.Index":
+			return m.P.calleeOf(c.Common()).Name != "slices.Index"
+		}
+	}
+	return false
+}
+
+// knownLen: the length of v is a known constant (fresh buffer of constant
+// size, AppendUintN(nil, ..)), else -1.
+func knownLen(m *Matcher, v ssa.Value) int64 { return knownLenD(m, v, 0) }
+
+func knownLenD(m *Matcher, v ssa.Value, depth int) int64 {
+	if depth > 6 {
+		return -1
+	}
+	switch x := v.(type) {
+	case *ssa.MakeSlice:
+		if c, ok := constInt(x.Len); ok {
+			return c
+		}
+	case *ssa.Call:
+		sizes := map[string]int64{"encoding/binary.bigEndian.AppendUint64": 8, "encoding/binary.bigEndian.AppendUint32": 4, "encoding/binary.bigEndian.AppendUint16": 2}
+		if n, ok := sizes[m.P.calleeOf(x.Common()).Name]; ok {
+			args := allArgs(x)
+			if c, isC := args[len(args)-2].(*ssa.Const); isC && c.IsNil() {
+				return n
+			}
+		}
+	case *ssa.Phi:
+		best := int64(-1)
+		for i, e := range x.Edges {
+			k := knownLenD(m, e, depth+1)
+			if i == 0 || k < best {
+				best = k
+			}
+		}
+		return best
+	case *ssa.Slice:
+		if x.High == nil && x.Low != nil {
+			if c, ok := constInt(x.Low); ok {
+				if k := knownLenD(m, x.X, depth+1); k >= c {
+					return k - c
+				}
+			}
+		}
+		if x.High == nil && x.Low == nil {
+			if al, ok := x.X.(*ssa.Alloc); ok {
+				ts := al.Type().Underlying().String() // *[N]T
+				if strings.HasPrefix(ts, "*[") {
+					if end := strings.Index(ts, "]"); end > 2 {
+						if n, err := strconv.Atoi(ts[2:end]); err == nil {
+							return int64(n)
+						}
+					}
+				}
+			}
+		}
+	}
+	if c, ok := v.(*ssa.Call); ok {
+		if b, ok := c.Call.Value.(*ssa.Builtin); ok && b.Name() == "append" {
+			return knownLenD(m, c.Call.Args[0], depth+1) // lower bound: append never shrinks
+		}
+		if strings.HasPrefix(m.P.calleeOf(c.Common()).Name, "encoding/binary.bigEndian.Append") {
+			return knownLenD(m, allArgs(c)[len(allArgs(c))-2], depth+1)
+		}
+	}
+	return -1
+}
+
+// readCount: n is the byte count returned by Read/ReadFull into this very buffer.
+func readCount(m *Matcher, n, base ssa.Value) bool {
+	name, idx, call := m.ResultOf(intRootNoVar(n))
+	if call == nil || idx != 0 {
+		return false
+	}
+	switch name {
+	case "io.Reader.Read", "io.ReadFull", "os.File.Read", "bufio.Reader.Read":
+		args := allArgs(call)
+		dst := canon(args[len(args)-1])
+		return dst == canon(base) || strings.HasPrefix(dst, canon(base)+"[:") // a prefix of base
+	case "io/fs.File.Read":
+		args := allArgs(call)
+		dst := canon(args[len(args)-1])
+		return dst == canon(base) || strings.HasPrefix(dst, canon(base)+"[:")
+	}
+	return false
+}
+
+// paramLenAtLeast: base is a parameter of fn and every in-region call site
+// passes an argument whose length is known to be at least n.
+func (e *E3) paramLenAtLeast(f *Flow, fn *ssa.Function, base ssa.Value, n int64) bool {
+	pr, ok := base.(*ssa.Parameter)
+	if !ok {
+		return false
+	}
+	pi := -1
+	for i, q := range fn.Params {
+		if q == pr {
+			pi = i
+		}
+	}
+	sites := 0
+	for _, ed := range e.p.CallGraph().in[fn] {
+		if !f.Region[ed.Caller] || ed.Kind != "static" {
+			continue
+		}
+		call, ok := ed.Site.(ssa.CallInstruction)
+		if !ok || pi >= len(call.Common().Args) {
+			return false
+		}
+		sites++
+		arg := call.Common().Args[pi]
+		st := f.StateAt(call)
+		if !st.Has(fmt.Sprintf("v:lenge:%s:%d", canon(arg), n)) {
+			return false
+		}
+	}
+	return sites > 0
+}
+
+// arithNonNeg: v is built with + * / >> from non-negative ingredients.
+func arithNonNeg(m *Matcher, v ssa.Value, depth int) bool {
+	if depth > 6 {
+		return false
+	}
+	v = intRootNoVar(v)
+	if c, ok := constInt(v); ok {
+		return c >= 0
+	}
+	if lenDerivedNonNeg(m, v) {
+		return true
+	}
+	if c, ok := v.(*ssa.Call); ok {
+		switch m.P.calleeOf(c.Common()).Name {
+		case "math/big.Int.BitLen", "crypto/rsa.PublicKey.Size":
+			return true
+		}
+	}
+	switch v.Type().Underlying().String() {
+	case "uint", "uint8", "uint16", "uint32", "uint64", "byte":
+		return true
+	}
+	if bo, ok := v.(*ssa.BinOp); ok {
+		switch bo.Op {
+		case token.ADD, token.MUL, token.QUO, token.SHR, token.REM:
+			return arithNonNeg(m, bo.X, depth+1) && arithNonNeg(m, bo.Y, depth+1)
+		}
+	}
+	return false
+}
+
+var reviewedBounds = map[string]string{
+	"fdo/internal/nistkdf.KDF":                          "buffers are sized from the requested bit length and the PRF size, both registry constants (C09.cipher-registry); the derived secret only fills them",
+	"fdo/cbor/cdn.sortMap$1":                            "debug notation: indices is a permutation of 0..len(keys)-1 built in the enclosing function",
+	"fdo/cose.truncHash.Sum":                            "Truncate is the registered constant 8, below every hash size",
+	"fdo/cose.aesCbcMac.Write":                          "AES-CBC-MAC is registered but used by no cipher suite (C09.cipher-registry lists only HMAC); pos is kept below the block size by construction",
+	"fdo/cose.aesCbcMac.Sum":                            "AES-CBC-MAC is registered but used by no cipher suite; tag sizes are registered constants not above the block size",
+	"fdo/serviceinfo.ChunkReader.ReadChunk":             "the buffer was grown to at least size-maxOverhead by the make immediately above",
+	"fdo/serviceinfo.DevmodModulesChunk.UnmarshalCBOR":  "range index over arr[2:] into a slice made with len(arr)-2 elements",
+	"fdo/kex.dhSymmetricKey":                            "the KDF output has exactly sekSize+svkSize bytes (requested length), sizes from the registry",
+	"fdo/kex.ecdhSymmetricKey":                          "the KDF output has exactly sekSize+svkSize bytes (requested length), sizes from the registry",
+	"fdo/kex.oaepSymmetricKey":                          "the KDF output has exactly sekSize+svkSize bytes (requested length), sizes from the registry",
+	"fdo/kex.ecdhParam.MarshalBinary":                   "encodes this side's own freshly generated uncompressed point (1+2n bytes)",
+	"fdo/protocol.PublicKey.parseX5Chain":               "range index over certs into a slice made with len(certs) elements (the constant-index uses are discharged by the len(certs)==0 guard)",
 }
